@@ -1,6 +1,7 @@
 import ScVerif.C16.EqualMain
 import ScVerif.C16.UnknownLemmas
 import ScVerif.C16.WireLemmas
+import ScVerif.C16.WirePrefix
 /-!
 # C16 — property theorems, part 2: the default comparer and protobuf equality
 
@@ -74,6 +75,24 @@ theorem C16_unknown_fields_wire (bx by_ : Bytes) (rx ry : Unk)
     exact Option.some.inj hy
   subst this
   intro n; rfl
+
+/-- "The same set of unknown field values", at the level of RECORDS: wire records are self-delimiting
+(`ConsumeField` looks at the bytes of the record only — proved for varint, fixed32/64, length-delimited and
+nested group records, with any sufficient fuel), so two record lists with the same concatenated bytes are the
+same lists.  Hence for all unknown fields cut from raw bytes `equalUnknown` holds exactly when, for every field
+number, the two messages carry the SAME SEQUENCE OF RECORDS of that number (records of different numbers may be
+interleaved differently). -/
+theorem C16_unknown_same_records (x y : Unk) (hx : WireCut x) (hy : WireCut y) :
+    eqUnknown x y = true ↔ ∀ n, x.filter (fun r => r.1 == n) = y.filter (fun r => r.1 == n) := by
+  rw [eqUnknown_iff_wire x y hx hy]
+  unfold unkSame
+  constructor
+  · intro h n; exact (group_eq_iff_records x y hx hy n).1 (h n)
+  · intro h n; exact (group_eq_iff_records x y hx hy n).2 (h n)
+
+/-- The hypothesis is satisfiable (and is what the driver establishes for every message it reads). -/
+example : WireCut [(1000, [0xc0, 0x3e, 1]), (1001, [0xc8, 0x3e, 9]), (1000, [0xc0, 0x3e, 2])] :=
+  ⟨[0xc0, 0x3e, 1, 0xc8, 0x3e, 9, 0xc0, 0x3e, 2], by decide⟩
 
 /-- The record cutter is well behaved on every input: a record that `ConsumeField` accepts is at least one
 byte long and not longer than the input (so the Go loop `x[:n]; x = x[n:]` neither stalls nor slices out of
